@@ -227,6 +227,12 @@ impl St {
     fn build(&self) -> Mesh2D<f64> {
         let mut m = Mesh2D::<f64>::new(Vector::create(xs(self.nx)), Vector::create(xs(self.ny)), NV);
         for a in &self.hist {
+            // read-only queries between the replayed writes: "query; write; query" happens on ONE object
+            let _ = catch(|| m.trapezium(0));
+            let _ = catch(|| m.square_trapezium(1));
+            let _ = catch(|| m.cross_section_xnode(0));
+            let _ = catch(|| m.cross_section_ynode(0));
+            let _ = catch(|| m.var_as_matrix(1));
             apply_real(&mut m, a);
         }
         m
@@ -330,12 +336,140 @@ impl Sut for St {
     }
 }
 
+// --- E2: query / write histories on a Mesh1D (no Clone: rebuilt by replaying writes AND the queries in between) ---
+#[derive(Clone, Debug, PartialEq)]
+enum Act1 {
+    SetNode(usize, i64),
+    IndexWrite(usize, usize, i64),
+}
+#[derive(Clone)]
+struct St1 {
+    nodes: Vec<f64>,
+    hist: Vec<Act1>,
+    model: Vec<Vec<f64>>, // [node][var]
+}
+fn probes(nodes: &[f64]) -> Vec<f64> {
+    let mut p = vec![];
+    for i in 0..nodes.len() - 1 {
+        let dx = nodes[i + 1] - nodes[i];
+        p.push(nodes[i] + 0.25 * dx);
+        p.push(nodes[i] + 0.5 * dx);
+    }
+    for x in nodes {
+        p.push(*x);
+    }
+    p
+}
+impl St1 {
+    fn build(&self) -> Mesh1D<f64, f64> {
+        self.build_probing(None)
+    }
+    /// `last_cell`: the cell in which the very last query before the final write is made
+    fn build_probing(&self, last_cell: Option<usize>) -> Mesh1D<f64, f64> {
+        let mut m = Mesh1D::<f64, f64>::new(Vector::create(self.nodes.clone()), NV);
+        let ps = probes(&self.nodes);
+        for (k, a) in self.hist.iter().enumerate() {
+            for x in &ps {
+                let _ = catch(|| m.get_interpolated_vars(*x));
+            }
+            let _ = catch(|| m.trapezium(0));
+            if k + 1 == self.hist.len() {
+                if let Some(c) = last_cell {
+                    let x = self.nodes[c] + 0.375 * (self.nodes[c + 1] - self.nodes[c]);
+                    let _ = catch(|| m.get_interpolated_vars(x));
+                }
+            }
+            match a {
+                Act1::SetNode(i, v) => m.set_nodes_vars(*i, Vector::create(vec![*v as f64, *v as f64 + 0.5])),
+                Act1::IndexWrite(i, var, v) => m[*i][*var] = *v as f64,
+            }
+        }
+        m
+    }
+}
+impl Sut for St1 {
+    type Act = Act1;
+    fn key(&self) -> Key {
+        let mut k = vec![self.nodes.len() as i128];
+        for row in &self.model {
+            for v in row {
+                k.push((*v * 8.0) as i128);
+            }
+        }
+        k
+    }
+    fn actions(&self) -> Vec<Act1> {
+        let mut a = vec![];
+        for i in 0..self.nodes.len() {
+            a.push(Act1::SetNode(i, 4));
+            a.push(Act1::IndexWrite(i, 0, -8));
+            a.push(Act1::IndexWrite(i, 1, 16));
+        }
+        a
+    }
+    fn step(&mut self, a: &Act1, hits: &mut Vec<&'static str>) -> Result<(), String> {
+        match a {
+            Act1::SetNode(i, v) => self.model[*i] = vec![*v as f64, *v as f64 + 0.5],
+            Act1::IndexWrite(i, var, v) => {
+                self.model[*i][*var] = *v as f64;
+                hits.push("index write after interpolation queries");
+            }
+        }
+        self.hist.push(a.clone());
+        self.check()
+    }
+    fn check(&self) -> Result<(), String> {
+        let m = self.build();
+        let n = self.nodes.len();
+        for i in 0..n {
+            ensure!(m.get_nodes_vars(i).vec == self.model[i] && m[i].vec == self.model[i], "node {} holds {:?} expected {:?}", i, m.get_nodes_vars(i).vec, self.model[i]);
+        }
+        for i in 0..n - 1 {
+            let dx = self.nodes[i + 1] - self.nodes[i];
+            for fr in [0.25, 0.5, 0.75] {
+                let x = self.nodes[i] + fr * dx;
+                let g = m.get_interpolated_vars(x);
+                for v in 0..NV {
+                    let want = self.model[i][v] + (self.model[i + 1][v] - self.model[i][v]) * fr;
+                    ensure!(g[v] == want, "after the history, interpolation in cell {} at x = {}: var {} = {} expected {}", i, x, v, g[v], want);
+                }
+            }
+            // the same cell queried immediately before and immediately after the last write (one object per cell)
+            if !self.hist.is_empty() {
+                let mc = self.build_probing(Some(i));
+                let g = mc.get_interpolated_vars(self.nodes[i] + 0.625 * dx);
+                for v in 0..NV {
+                    let want = self.model[i][v] + (self.model[i + 1][v] - self.model[i][v]) * 0.625;
+                    ensure!(g[v] == want, "query in cell {}, write, query in cell {} again: var {} = {} expected {}", i, i, v, g[v], want);
+                }
+            }
+        }
+        for i in 0..n {
+            let g = m.get_interpolated_vars(self.nodes[i]);
+            ensure!(g.vec == self.model[i], "after the history, interpolation at node {} = {:?} expected {:?}", i, g.vec, self.model[i]);
+        }
+        for v in 0..NV {
+            let want: f64 = (0..n - 1).map(|i| 0.5 * (self.nodes[i + 1] - self.nodes[i]) * (self.model[i][v] + self.model[i + 1][v])).sum();
+            ensure!(m.trapezium(v) == want, "after the history, trapezium({}) = {} expected {}", v, m.trapezium(v), want);
+        }
+        Ok(())
+    }
+    fn classes(&self, hits: &mut Vec<&'static str>) {
+        if self.hist.len() >= 2 {
+            hits.push("1-D history of >= 2 writes");
+        }
+    }
+    fn show(&self) -> String {
+        format!("{:?} {:?}", self.nodes, self.model)
+    }
+}
+
 fn main() {
     let ctx = Ctx::from_args("C19");
     ctx.level("model_checking");
     ctx.rule("E1: 1-D meshes with 2..6 nodes and EVERY spacing word over {1/4,1/2,1,2}, 7..12 nodes with every <=2-deviation word from uniform, a second family with spacings {3/4,3/2,1} (rounding tolerance), 1..4 variables, two integer-valued data patterns: every access path, interpolation at every node / mid-cell / quarter / eighth points (never within 1e-6 of a node except at it), trapezium = cell sum and exact on linear data, output->read round trip at precisions 3, 6, 12; 2-D meshes over all pairs of node counts 2..5 with three spacing words each: every access path, both cross-section orientations, var_as_matrix, apply, assign, trapezium/square_trapezium = cell sums, exact on bilinear data. E2: BFS over write histories (set_nodes_vars, index writes, assign, apply) on 2x3 and 3x2 meshes, the real object rebuilt by replaying each history, all views re-checked in every state. Non-trivial: non-uniform grids, interpolation at the last node, non-square 2-D meshes.");
     ctx.assume("nodal data are integer-valued / dyadic so that f64 results are exact on power-of-two grids");
-    ctx.require(&["non-uniform grid", "interpolations at a node", "interpolations inside a cell", "non-square 2-D mesh", "non-square mesh state", "apply in a history", "round trip"]);
+    ctx.require(&["non-uniform grid", "interpolations at a node", "interpolations inside a cell", "non-square 2-D mesh", "non-square mesh state", "apply in a history", "round trip", "index write after interpolation queries", "1-D history of >= 2 writes"]);
     // 1-D exhaustive spacing words
     for n in 2..=6usize {
         let words = pow(4, (n - 1) as u32);
@@ -473,6 +607,13 @@ fn main() {
     explore(&ctx, "Mesh2D write histories (2x3, 3x2)", inits.clone(), BfsOpts { max_depth: depth, state_cap: ctx.pick(500_000, 10_000_000) });
     if ctx.quick() {
         crosscheck_stateright(&ctx, "Mesh2D write histories (2x3, 3x2)", inits, depth);
+    }
+    let nodes1 = vec![-1.0, 0.0, 0.5, 2.5];
+    let inits1 = vec![St1 { nodes: nodes1.clone(), hist: vec![], model: vec![vec![0.0; NV]; nodes1.len()] }];
+    let d1 = ctx.pick(3, 4);
+    explore(&ctx, "Mesh1D query/write histories (4 nodes incl. x = 0)", inits1.clone(), BfsOpts { max_depth: d1, state_cap: ctx.pick(300_000, 5_000_000) });
+    if ctx.quick() {
+        crosscheck_stateright(&ctx, "Mesh1D query/write histories (4 nodes incl. x = 0)", inits1, d1);
     }
     std::process::exit(ctx.finish());
 }
